@@ -362,10 +362,22 @@ def proof_stage(ctx, prop_file, generators, extra_targets=()):
     forb = coq_forbidden()
     if forb:
         ctx.obligation_broken("forbidden-construct", forb[0], "\n".join(forb))
+    chk = None
+    if okm and ctx.tier == "thorough":
+        # independent re-check of the compiled closure and of its axioms
+        mod = "S4." + prop_file[:-2].replace("/", ".")
+        rc, out = sh(["coqchk", "-o", "-silent", "-Q", ".", "S4", mod], cwd=COQ, timeout=3000)
+        clean = (rc == 0 and re.search(r"\* Axioms: <none>", out) is not None
+                 and re.search(r"type-in-type: <none>", out) is not None
+                 and re.search(r"unsafe \(co\)fixpoints: <none>", out) is not None
+                 and re.search(r"positivity is assumed: <none>", out) is not None)
+        chk = dict(cmd="coqchk -o -silent -Q . S4 " + mod, ok=clean)
+        if not clean:
+            ctx.obligation_broken("coqchk", mod, out)
     nth = len(res["theorems"])
     ctx.coverage.update(
         obligations=max(nth, 1),
-        discharged=(nth if (okm and res["ok"] and not forb) else 0),
+        discharged=(nth if (okm and res["ok"] and not forb and (chk is None or chk["ok"])) else 0),
         checker_cmd="python3 tools/gen_tables.py; cd coq && coq_makefile -f _CoqProject -o Makefile && make -j%d %s  (full .vo; Print Assumptions read from the build log; forbidden-construct grep)" % (NCPU, " ".join(targets)),
-        theorems=res["theorems"], assumptions_closed=res["closed"], axioms_seen=res["axioms"])
+        theorems=res["theorems"], assumptions_closed=res["closed"], axioms_seen=res["axioms"], coqchk=chk)
     return okm and res["ok"] and not forb
